@@ -365,6 +365,9 @@ pub fn c09(ctx: &mut Ctx) {
                 Ok(Ok(Some(true))) => l.hit("extension-carrying report accepted through a compound"),
                 Ok(other) => l.violation("well-formed-rejected:report-with-extension-in-compound", || hex_short(&img), || format!("{:?}", other)),
             }
+            // however report_blocks() is driven (nth, last, count, fold ...), it yields the blocks plain next() calls
+            // yield, which check_views has just compared with the wire: the extension is not a block
+            super::common::all_iterator_histories(l, img, 2);
         });
     }
     // iterator call histories: report_blocks() of SR / RR and ssrcs() of BYE driven through every sequence of
